@@ -96,3 +96,25 @@ def small_grid(tier, shard, nshards):
 
 GRID_NOTE = ("exhaustive sub-domain: every coefficient pair in [-6, 6]^2 x scales {0,1,2,9,17,18}^2 (quick) / "
              "[-12, 12]^2 x all 361 scale pairs (thorough)")
+
+
+def check_fmtfail(toks, resp, mode):
+    """`fmtfail <cap> <p|-> D`: Display into a sink that refuses to grow beyond cap bytes. If everything fits the text
+    must be the expected one; if not, the call must report the error (not panic) and what reached the sink must be a
+    prefix of the expected text. The request is mainly a perturbation: the calls that follow must be unaffected."""
+    from ..oracle import fmt_expected
+    from .. import engine as E
+    cap = int(toks[1])
+    p = None if toks[2] == "-" else int(toks[2])
+    c, s = E.pD(toks[3])
+    want = fmt_expected(c, s, mode, {}, None, p)
+    fits = len(want.encode()) <= cap
+    exp = "W %s ok" % E.hexs(want) if fits else "W <prefix of %s> err" % E.hexs(want)
+    if resp.kind != "W" or len(resp.f) != 2:
+        return "viol", "fmtfail", True, exp
+    got = E.unhex(resp.f[0])
+    if fits:
+        ok = resp.f[1] == "ok" and got == want
+    else:
+        ok = resp.f[1] == "err" and want.startswith(got) and len(got.encode()) <= cap
+    return ("ok" if ok else "viol"), "fmtfail." + ("fits" if fits else "fails"), True, exp
